@@ -853,6 +853,50 @@ def _check_blocks(repo, r2, s, enc, search, fte, fts, L):
                         isinstance(c.args[1], ast.BinOp) and isinstance(c.args[1].left, ast.Name):
                     marks_w.add(c.args[1].left.id)
         marks_r = {x.id for x in ast.walk(search.node) if isinstance(x, ast.Name) and x.id.startswith("LEVEL_")}
+        # which mark goes on which payload: blocks of identifiers (cut from database[w]) carry the file-identifier mark, blocks of
+        # array positions (cut from a list of encoded positions) carry the pointer mark - the reader decides by the mark how to parse on
+        try:
+            m_file = repo.const_value(enc.module, ast.Name(id="LEVEL_FILE_IDENTIFIER", ctx=ast.Load()))
+            m_ptr = repo.const_value(enc.module, ast.Name(id="LEVEL_POINTER_OF_ARRAY", ctx=ast.Load()))
+        except Exception:
+            m_file = m_ptr = None
+        n_marked = 0
+        dbp_ = ("param", enc.params[2])
+        for n in fte.cfg.nodes:
+            if n.stmt is None or n.ast is None:
+                continue
+            for c in ast.walk(n.stmt if n.kind != "test" else n.ast):
+                if not (isinstance(c, ast.Call) and isinstance(c.func, ast.Attribute) and c.func.attr == "Encrypt"):
+                    continue
+                t = fte.term(c, n.id)
+                if t[0] != "prim" or len(t[3]) < 2:
+                    continue
+                pl = t[3][1]
+                if not (pl[0] == "binop" and pl[1] == "Add" and pl[2][0] == "const" and isinstance(pl[2][1], bytes) and len(pl[2][1]) == 1):
+                    continue
+                rest = pl[3]
+
+                def shallow(x, depth=0):
+                    """sub-terms of the payload without going inside local containers (their contents are judged where they are filled)"""
+                    yield x
+                    if isinstance(x, tuple) and x and x[0] != "cont" and depth < 40:
+                        for y in x:
+                            if isinstance(y, tuple):
+                                yield from shallow(y, depth + 1)
+                top = list(shallow(rest))
+                has_ids = any(isinstance(x, tuple) and len(x) >= 2 and x[0] == "sub" and x[1] == dbp_ for x in top)
+                has_ptrs = any(isinstance(x, tuple) and x and x[0] == "cont" and any(
+                    m_[0] in ("append", "extend") and m_[2] and isinstance(m_[2][0], tuple) and m_[2][0] and m_[2][0][0] == "call" and
+                    isinstance(m_[2][0][1], str) and m_[2][0][1].endswith("int_to_bytes") for m_ in x[3]) for x in top)
+                if has_ids == has_ptrs or m_file is None:
+                    continue
+                n_marked += 1
+                want_m = m_file if has_ids else m_ptr
+                r2.require(pl[2][1] == want_m, enc, "Pi2Lev mark matches the payload",
+                           "Pi2Lev._Enc marks a block of %s with %r: _Search decides by the mark whether a block holds identifiers or array positions, so this block is "
+                           "parsed as the wrong kind and the search returns positions instead of identifiers (or walks into garbage)" % (
+                               "identifiers" if has_ids else "array positions", pl[2][1]), c)
+        r2.require(n_marked >= 4, enc, "Pi2Lev marked payloads found", "Pi2Lev._Enc: fewer marked blocks than cases (%d)" % n_marked)
         r2.require(marks_w == {"LEVEL_FILE_IDENTIFIER", "LEVEL_POINTER_OF_ARRAY"} and marks_r == marks_w, search, "Pi2Lev level marks",
                    "Pi2Lev: writer prepends %s, reader tests %s" % (sorted(marks_w), sorted(marks_r)))
         strip = any(isinstance(x, ast.Subscript) and isinstance(x.slice, ast.Slice) and isinstance(x.slice.lower, ast.Constant) and x.slice.lower.value == 1
